@@ -91,4 +91,81 @@ theorem mkOverwrite_built (m : Manifest) (f : Nat) (rows : List (Int × Cell)) :
 theorem mkIndex_built (m : Manifest) (uuid : Nat) : Built m (mkIndex m uuid) := by
   simp [Built, mkIndex]
 
+theorem foldl_max_ge (l : List Nat) (a : Nat) : a ≤ l.foldl max a ∧ ∀ x ∈ l, x ≤ l.foldl max a := by
+  induction l generalizing a with
+  | nil => simp
+  | cons y t ih =>
+    simp only [List.foldl_cons]
+    have := ih (max a y)
+    refine ⟨by omega, ?_⟩
+    intro x hx
+    simp at hx
+    rcases hx with rfl | hx
+    · omega
+    · exact this.2 x hx
+
+/-- add_columns -/
+theorem mkAddCol_built (m : Manifest) (k : Nat) : Built m (mkAddCol m k) := by
+  simp only [Built, mkAddCol]
+  refine ⟨?_, [⟨maxFieldId m + 1, 10 + k⟩], rfl, ?_⟩
+  · rw [List.map_map]
+    apply List.map_congr_left
+    intro f _
+    simp
+  · intro f hf hin
+    simp at hf
+    subst hf
+    have : maxFieldId m + 1 ≤ maxFieldId m := by
+      unfold maxFieldId
+      apply (foldl_max_ge _ 0).2
+      simp only [List.mem_append, schemaIds, List.mem_map]
+      left; exact ⟨_, hin, rfl⟩
+    omega
+
+theorem binsFrom_mem (ixs : List Index) : ∀ (fs : List Frag) (acc : Option (List Frag × List Nat)) (all : List Frag),
+    (∀ f ∈ fs, f ∈ all) → (∀ b, acc = some b → ∀ f ∈ b.1, f ∈ all) →
+    ∀ bin ∈ binsFrom ixs acc fs, ∀ f ∈ bin, f ∈ all := by
+  intro fs
+  induction fs with
+  | nil =>
+    intro acc all _ hacc bin hbin f hf
+    cases acc with
+    | none => simp [binsFrom] at hbin
+    | some b =>
+      simp only [binsFrom, List.mem_singleton] at hbin
+      subst hbin
+      exact hacc b rfl f hf
+  | cons g t ih =>
+    intro acc all hfs hacc bin hbin f hf
+    cases acc with
+    | none =>
+      simp only [binsFrom] at hbin
+      exact ih _ all (fun x hx => hfs x (by simp [hx]))
+        (by intro b hb x hx; cases hb; simp at hx; subst hx; exact hfs _ (by simp)) bin hbin f hf
+    | some b =>
+      simp only [binsFrom] at hbin
+      split at hbin
+      · exact ih _ all (fun x hx => hfs x (by simp [hx]))
+          (by
+            intro b' hb' x hx; cases hb'
+            simp only [List.mem_append, List.mem_singleton] at hx
+            rcases hx with hx | rfl
+            · exact hacc b rfl x hx
+            · exact hfs _ (by simp)) bin hbin f hf
+      · simp only [List.mem_cons] at hbin
+        rcases hbin with rfl | hbin
+        · exact hacc b rfl f hf
+        · exact ih _ all (fun x hx => hfs x (by simp [hx]))
+            (by intro b' hb' x hx; cases hb'; simp at hx; subst hx; exact hfs _ (by simp)) bin hbin f hf
+
+/-- compact_files: the groups of the plan are made of fragments of the manifest -/
+theorem mkRewrite_built (m : Manifest) (ids : List Nat) (u : Nat) : Built m (mkRewrite m ids u) := by
+  simp only [Built, mkRewrite]
+  intro g hg o ho
+  simp only [List.mem_map] at hg
+  obtain ⟨p, hp, rfl⟩ := hg
+  have hbin : p.1 ∈ planGroups m := (List.of_mem_zip hp).1
+  simp only [planGroups, List.mem_filter] at hbin
+  exact binsFrom_mem m.indices m.frags none m.frags (fun _ h => h) (by intro b hb; cases hb) p.1 hbin.1 o ho
+
 end LanceModel.C03
